@@ -57,7 +57,7 @@ func (f *RassocIf) Call(s *slip.Scope, args slip.List, depth int) (found slip.Ob
 	pos := 0
 	predicate := ResolveToCaller(s, args[pos], depth)
 	pos++
-	alist, ok := args[pos].(slip.List)
+	alist, ok := listArg(args[pos])
 	if !ok {
 		slip.TypePanic(s, depth, "alist", args[pos], "list")
 	}
